@@ -23,7 +23,7 @@ import (
 // The schedule-exhaustive leg (all interleavings of workers/closer/collector) lives in c07sched.go.
 
 var c07A10 = []string{"2020-01-01", "\n", "\r\n", " ", "    ", "\t", "1h", "x", "é", "中"}
-var c07A12 = append(append([]string{}, c07A10...), "bad", "\xff")
+var c07A12 = append(append([]string{}, c07A10...), "bad", "\xff", "\ufffd")
 
 type c07Case struct {
 	Fam  string `json:"fam"`
@@ -158,7 +158,7 @@ func init() {
 	fw.Register(&fw.Check{
 		ID:    "C07",
 		Title: "The parallel parser is indistinguishable from the serial parser",
-		Rule: "inputs: ALL strings of <=5 (quick) / 6 (thorough) tokens over A12 = {date, LF, CRLF, space, 4 spaces, tab, 1h, x, é, 中, bad, 0xFF} x EVERY worker count 1..len+2 (a chunk boundary at every byte offset, " +
+		Rule: "inputs: ALL strings of <=5 (quick) / 6 (thorough) tokens over A13 = {date, LF, CRLF, space, 4 spaces, tab, 1h, x, é, 中, bad, 0xFF, U+FFFD} x EVERY worker count 1..len+2 (a chunk boundary at every byte offset, " +
 			"inside multi-byte characters, between CR and LF, on and between blank lines, inside leading/trailing blanks); all strings of exactly 6 / 7 tokens over the 10 valid-UTF-8 tokens x one worker count per distinct chunk size; " +
 			"the formatting product FB and all single-edit documents FD1 x reduced worker counts; 208 documents x 12 commands x NumCpus {1,2,3,8} through the complete CLI. " +
 			"schedules: see the schedule_* keys (exhaustive DFS over the cooperative scheduler on the instrumented build). A case = (text, worker count); non-trivial = more than one non-empty chunk; distinct by hash(text, n).",
